@@ -6,6 +6,7 @@ package gopkgs
 import (
 	"fmt"
 	"reflect"
+	"runtime"
 	"strings"
 
 	"github.com/open2b/scriggo/native"
@@ -34,6 +35,7 @@ func HostPackage() native.Packages {
 		"Counter": &counter,
 		"Size":    native.UntypedNumericConst("12"),
 		"Pair":    PairType,
+		"Yield":   runtime.Gosched,
 	}}}
 }
 
